@@ -271,6 +271,8 @@ class StaticUseDep(packages.PackageRestriction):
 # Which makes no sense; trace and fix.
 class _UseDepDefaultContainment(values.ContainmentMatch, caching=False):
     __slots__ = ("if_missing",)
+    # if_missing changes what is matched, so it is part of the identity
+    __attr_comparison__ = ("vals", "all", "negate", "if_missing")
 
     def __eq__(self, other):
         # A plain ContainmentMatch over the same flags, or one with the other
